@@ -36,6 +36,7 @@ func runC13(w *core.World, r *core.Report) {
 	r.Rule("R3", "local transactions (Dump, ensureTable): ended on every path; failure edge does not touch the handle")
 	r.Rule("R4", "Abort/Stop/Close: stored handle dereferenced only behind a non-nil test")
 	r.Rule("R5", "multi set only after the opener succeeded; stopSingle commits only when multi is false")
+	r.Rule("R6", "Put/Get and their helpers: the error of every driver call (begin, statement, row fetch, commit) flows into the function's error result")
 
 	fns := w.FuncsIn("db/postgres")
 	if len(fns) == 0 {
@@ -236,6 +237,92 @@ func runC13(w *core.World, r *core.Report) {
 		}
 	}
 	r.Floor("R2", "committing closer call sites", ncommit, 3)
+
+	// ---- R6 -----------------------------------------------------------------------------------
+	opFns := map[*ssa.Function]bool{}
+	for _, fn := range fns {
+		if fn.Name() == "Put" || fn.Name() == "Get" {
+			opFns[fn] = true
+		}
+	}
+	for changed := true; changed; {
+		changed = false
+		for f := range opFns {
+			for _, c := range core.Calls(f) {
+				if g := core.StaticCallee(c); g != nil && core.PkgOf(g) == "db/postgres" && !opFns[g] && len(g.Blocks) > 0 {
+					opFns[g] = true
+					changed = true
+				}
+			}
+		}
+	}
+	ndrv := 0
+	for f := range opFns {
+		for _, c := range core.Calls(f) {
+			n := core.CallName(c)
+			isHelper := false
+			if g := core.StaticCallee(c); g != nil && opFns[g] && closers[g] == "" {
+				isHelper = true // a helper that hands driver errors up
+			}
+			if !isHelper && !(strings.Contains(n, "pgx/v5.Tx.") || strings.Contains(n, "pgx/v5.Rows.") || strings.HasSuffix(n, ".BeginTx")) {
+				continue
+			}
+			if strings.HasSuffix(n, ".Rollback") || strings.HasSuffix(n, "Rows.Close") || strings.HasSuffix(n, "Rows.Next") {
+				continue
+			}
+			call, ok := c.(*ssa.Call)
+			if !ok {
+				continue
+			}
+			res := call.Common().Signature().Results()
+			hasErr := false
+			for i := 0; i < res.Len(); i++ {
+				if res.At(i).Type().String() == "error" {
+					hasErr = true
+				}
+			}
+			if !hasErr {
+				continue
+			}
+			ndrv++
+			ok2 := false
+			if ev := callErr(c); ev != nil {
+				// the error may be handed to a helper/closure of the package that returns it (`return fail(err)`)
+				thr := func(cc *ssa.Call, i int) bool {
+					g := core.StaticCallee(cc)
+					return g != nil && core.PkgOf(g) == "db/postgres"
+				}
+				for v := range core.Forward(ev, thr) {
+					if refs := v.Referrers(); refs != nil {
+						for _, u := range *refs {
+							switch t := u.(type) {
+							case *ssa.Return:
+								if len(t.Results) > 0 && t.Results[len(t.Results)-1] == v {
+									ok2 = true
+								}
+							case *ssa.Store:
+								if fv, isFV := t.Addr.(*ssa.FreeVar); isFV && isNamedResult(f.Parent(), fv.Name()) {
+									ok2 = true
+								}
+								if a, isA := t.Addr.(*ssa.Alloc); isA && isNamedResult(f, a.Comment) {
+									ok2 = true
+								}
+							case *ssa.Call:
+								// a fallback may follow a miss, when the miss is recognised as such
+								if isHelper && core.IsCallTo(t, "db.IsNotFound") {
+									ok2 = true
+								}
+							}
+						}
+					}
+				}
+			}
+			short := n[strings.LastIndex(n, ".")+1:]
+			r.Check(ok2, "R6", fmt.Sprintf("%s: error of %s reaches the caller", core.QName(f), short), c.Pos(), "flows to the error result",
+				"a failed "+short+" is not reported by the operation (the error is dropped or only steers a fallback): the caller sees success, or the value of another lookup, although the database failed")
+		}
+	}
+	r.Floor("R6", "driver calls in Put/Get and their helpers", ndrv, 5)
 
 	// ---- R3 -----------------------------------------------------------------------------------
 	nlocal := 0
